@@ -425,6 +425,10 @@ def r6(idx, rep):
                 if st["self._data_line_number"] != k - 1:
                     bad = bad or f"lines {['blank' if not d else 'data' for d in seq]}: data_line_number={st['self._data_line_number']}, documented {k - 1}"
     rep.check(bad is None, "R6", f"{fn.file}::LineMonitor.next_line counters", bad or f"{rows} sequences", K.where(fn, fn.node))
+    # breadth-first driver: every un-stopped member gets one track_line per line, also when skip_all skips its matching
+    from . import c08
+    c08.byline(idx, rep, "R6", "R6", "quick", scenarios=("skipall", "stops_a"), aspects=("schedule",))
+    c08.copies(idx, rep, "R6")
     rep.stats["table_rows"] = rep.stats.get("table_rows", 0) + rows
 
 
